@@ -96,9 +96,10 @@ func runC13(c writeCase) (bool, []string, error) {
 		return nt, labels, fmt.Errorf("building a codec changed the caller's schema value: %s", d)
 	}
 	first := codec
-	second, err := lib.Codec(reflect.New(typ).Elem().Interface())
+	// (the second one asked for through a pointer to the struct, which names the same type)
+	second, err := lib.Codec(reflect.New(typ).Interface())
 	if err != nil {
-		return nt, labels, fmt.Errorf("a second codec from the same schema value is refused: %v", err)
+		return nt, labels, fmt.Errorf("a second codec from the same schema value (out given as a pointer to the struct) is refused: %v", err)
 	}
 	for i, vs := range c.Values {
 		codec = first
